@@ -20,6 +20,8 @@ LEVEL = 'exploration'
 BUDGET = {'quick': 45, 'thorough': 420}
 # deterministic sub-checks repeated in a `python -O` child (core.optimized_child)
 OPT_SUBS = ('mac/family', 'int/odd', 'badchar/family', 'confusable/family', 'ipv4/family', 'ipv6/family', 'cidr/family', 'int/range')
+# documented call interface the generated calls rely on (vcheck/callstyle.py)
+INTERFACE = [('oslo_utils.netutils', ['is_valid_ipv4', 'is_valid_ipv6', 'is_valid_cidr', 'is_valid_ipv6_cidr', 'is_valid_ip', 'is_valid_mac', 'is_valid_port', 'is_valid_icmp_type', 'is_valid_icmp_code'])]
 RULE = ('Strings from address grammars - dotted quads with 1..5 parts over a '
         '34-spelling part alphabet (octets -1..300, range ends of the 1..3 '
         'part forms, leading zeros, hex/octal, signs, non-ASCII digits); IPv6 '
@@ -820,6 +822,103 @@ INT_ODD = [None, True, False, '', ' ', '+80', ' 80', '80 ', '80\n', '8_0',
            'nan', '1,000', '1 000', '−1', '65,535']
 
 
+class _MyInt(int):
+    pass
+
+
+class _MyStr(str):
+    pass
+
+
+def _subclass_value(kind, value):
+    import enum
+    if kind == 'int':
+        return _MyInt(value)
+    if kind == 'str':
+        return _MyStr(value)
+    if kind == 'IntEnum':
+        return enum.IntEnum('Port', {'P': value}).P
+    if kind == 'IntFlag':
+        return enum.IntFlag('Bits', {'B': value}).B
+    raise core.HarnessError('subclass kind %r' % (kind,))
+
+
+def check_subclass(col, sub, kind, value):
+    """An int / str given as an instance of a subclass (IntEnum member,
+    config-library str subclass) is the same value."""
+    funcs = _funcs()
+    v = _subclass_value(kind, value)
+    plain = int(value) if kind != 'str' else str(value)
+    for fn, lo, hi, none_ok in (('port', 0, 65535, False),
+                                ('icmp_type', 0, 255, False),
+                                ('icmp_code', 0, 255, True)):
+        want = int_verdict(plain, lo, hi, none_ok)
+        if want is None:
+            continue
+        got = _call(funcs[fn], v)
+        case = {'fn': fn, 'arg': {'subclass': kind, 'value': value}}
+        if got[0] == 'err':
+            raise Violation(sub, '%s(<%s %r>) raised %r' % (fn, kind, value,
+                                                            got[1]), case)
+        if bool(got[1]) != want:
+            raise Violation(sub, '%s(<%s subclass instance %r>) -> %r, '
+                            'expected %s' % (fn, kind, value, got[1], want),
+                            case)
+    col.case(sub, (kind, value), True, 'subclass/' + kind,
+             {'subclass': kind, 'value': value})
+
+
+def int_subclasses(col):
+    sub = 'int/subclass'
+    for value in (0, 1, 80, 255, 256, 65535, 65536, 70000):
+        for kind in ('int', 'IntEnum', 'IntFlag'):
+            if kind == 'IntFlag' and value == 0:
+                continue
+            check_subclass(col, sub, kind, value)
+        check_subclass(col, sub, 'str', str(value))
+    for text in ('-1', 'abc', '', '65536'):
+        check_subclass(col, sub, 'str', text)
+    check_subclass(col, sub, 'int', -1)
+    col.exhaustive[sub] = True
+
+
+def preempt(col):
+    """Schedules (core.preempt_calls): validators against each other under
+    every single preemption inside netutils."""
+    from oslo_utils import netutils as n
+    sub = 'preempt'
+    T, F = ('value', True), ('value', False)
+    calls = [
+        ('is_valid_port(80)', lambda: bool(n.is_valid_port('80')), T),
+        ('is_valid_port(65536)', lambda: bool(n.is_valid_port('65536')), F),
+        ('is_valid_ipv6(fe80::1%eth0)',
+         lambda: bool(n.is_valid_ipv6('fe80::1%eth0')), T),
+        ('is_valid_ipv4(1.2.3, strict)',
+         lambda: bool(n.is_valid_ipv4('1.2.3', strict=True)), F),
+        ('is_valid_ipv4(1.2.3.4, strict)',
+         lambda: bool(n.is_valid_ipv4('1.2.3.4', strict=True)), T),
+        ('is_valid_mac(aa:bb:cc:dd:ee:ff)',
+         lambda: bool(n.is_valid_mac('aa:bb:cc:dd:ee:ff')), T),
+        ('is_valid_mac(aa:bb:cc:dd:ee)',
+         lambda: bool(n.is_valid_mac('aa:bb:cc:dd:ee')), F),
+        ('is_valid_cidr(10.0.0.0/8)',
+         lambda: bool(n.is_valid_cidr('10.0.0.0/8')), T),
+        ('is_valid_cidr(10.0.0.0)',
+         lambda: bool(n.is_valid_cidr('10.0.0.0')), F),
+        ('is_valid_ipv6_cidr(::/0)',
+         lambda: bool(n.is_valid_ipv6_cidr('::/0')), T),
+        ('is_valid_icmp_type(255)',
+         lambda: bool(n.is_valid_icmp_type(255)), T),
+        ('is_valid_icmp_code(256)',
+         lambda: bool(n.is_valid_icmp_code(256)), F),
+        ('is_valid_ip(::1)', lambda: bool(n.is_valid_ip('::1')), T),
+        ('is_valid_ip(1.2.3.256)', lambda: bool(n.is_valid_ip('1.2.3.256')),
+         F),
+    ]
+    core.preempt_calls(col, sub, ['oslo_utils.netutils'], calls)
+    col.exhaustive.setdefault(sub, False)
+
+
 def int_odd(col):
     sub = 'int/odd'
     funcs = _funcs()
@@ -1053,7 +1152,9 @@ def tasks(tier, seed):
     out += [Task('mac/family', mac_family),
             Task('int/odd', int_odd),
             Task('badchar/family', bad_chars_family),
-            Task('confusable/family', confusable_family)]
+            Task('confusable/family', confusable_family),
+            Task('int/subclass', int_subclasses),
+            Task('preempt', preempt)]
     for length in (1, 2, 3, 4, 5):
         out.append(Task('ipv4/family', ipv4_family, length=length))
     for p in range(4):
@@ -1080,7 +1181,12 @@ def tasks(tier, seed):
 def replay(rec):
     case = rec['case']
     sub = rec.get('sub', 'replay')
+    if case.get('preempt_calls'):
+        return preempt(core.Collector())
     fn, arg = case['fn'], case['arg']
+    if isinstance(arg, dict) and 'subclass' in arg:
+        return check_subclass(core.Collector(), sub, arg['subclass'],
+                              arg['value'])
     if isinstance(arg, dict) and 'int_hex' in arg:
         arg = int(arg['int_hex'], 16)
     if case.get('probe'):
